@@ -191,7 +191,7 @@ Definition cfg_okb (c : cg_cfg) : bool :=
   let L := N.of_nat (length (c_words c)) in
   (1 <=? L) && (L <=? 2 ^ c_posw c) && (1 <=? c_bpw c) && (1 <=? c_lwb c) && (c_lwb c <=? c_bpw c)
   && ((c_vw c =? 1) || (c_vw c =? c_bpw c)) && (c_dlen c =? (L - 1) * c_bpw c + c_lwb c)
-  && (c_dlen c <=? 2 ^ c_spw c) && (c_bpw c <? 2 ^ c_mlw c).
+  && (c_dlen c <=? 2 ^ c_spw c) && (negb (c_hasml c) || (c_bpw c <? 2 ^ c_mlw c)).
 
 (* ---- how the Python constructor derives the configuration from its arguments (bytes data) ---- *)
 Fixpoint word_le (bs : list N) : N := match bs with [] => 0 | b :: t => b + 256 * word_le t end.
